@@ -1,0 +1,36 @@
+//! Verification hook H3 (cargo feature `verif-hooks`, off by default): scheduling points for the
+//! external model-checking harness in /verif. A point is a no-op unless a hook has been installed
+//! for the calling thread's process; the harness installs one that parks the calling thread until
+//! its controlled scheduler lets it continue. Purely additive: no behaviour changes when unused.
+
+use std::sync::RwLock;
+
+type Hook = Box<dyn Fn(&'static str) + Send + Sync>;
+
+static HOOK: RwLock<Option<Hook>> = RwLock::new(None);
+
+/// Install (or remove, with `None`) the process-wide scheduling hook.
+pub fn set_point_hook(hook: Option<Hook>) {
+    *HOOK.write().unwrap_or_else(std::sync::PoisonError::into_inner) = hook;
+}
+
+/// A scheduling point named `kind` (e.g. "schema-cache:before-read").
+pub fn point(kind: &'static str) {
+    if let Some(hook) = HOOK
+        .read()
+        .unwrap_or_else(std::sync::PoisonError::into_inner)
+        .as_ref()
+    {
+        hook(kind);
+    }
+}
+
+/// Fires `kind` when dropped: declared *before* a lock guard it reports the release of that guard
+/// (locals drop in reverse declaration order).
+pub struct PointOnDrop(pub &'static str);
+
+impl Drop for PointOnDrop {
+    fn drop(&mut self) {
+        point(self.0);
+    }
+}
